@@ -40,6 +40,8 @@ ASSUMPTIONS = [
     'complex coefficient data only where the kernels of this tree handle it: dot, outer (the operand that fixes the result dtype complex), inv, solve with a UTPM right-hand side, trace, expm; det/logdet and solve(UTPM, ndarray) raise UFuncTypeError for complex data (float work arrays) -- documented in notes/C07.md, not asserted',
     'expm:small-base:high-order: D = 7..10 with ||A_0||_1 = 0, 1e-3..0.0149, ..0.2, ..0.5 (every direction in the same class) and a dense A_1: Pade-7 is accurate there for all d < 15, a lower-order approximant is not',
     'one third of the cases with a plain ndarray operand (dot, outer, solve) make a second call with the SAME ndarray object refilled in place; the second result must satisfy the oracle for the new contents',
+    'extreme magnitude (1/5 of the logdet / inv / solve cases): A = 2^k B; logdet with n|k| > 1100 (det A_0 outside binary64, like numpy.linalg.det; algopy.det is NOT asserted there): zeroth coefficient vs numpy.linalg.slogdet to 1e-12 relative, series minus n k log 2 vs the mpmath reference of B; inv / solve with |k| = 200, 300: the relative predicates',
+    'dot / outer with {UTPM,UTPM}: 1/5 of the cases pass the SAME object for both operands',
     'N-D trace, 0-d operands of dot are outside the domain',
     'mpmath, NumPy, SciPy/LAPACK are trusted',
 ]
@@ -250,7 +252,10 @@ def _live(case, keys):
     """the operands as handed to algopy (layout per operand from case['lay'], default C-contiguous copies)"""
     kind = case.get('kind') or 'U' * len(keys)
     lay = case.get('lay') or 'C' * len(keys)
-    return [R.live_operand(case[k], kind[i] == 'U', lay[i]) for i, k in enumerate(keys)]
+    live = [R.live_operand(case[k], kind[i] == 'U', lay[i]) for i, k in enumerate(keys)]
+    if case.get('same') and len(live) == 2:
+        live[1] = live[0]                       # one object for both operands
+    return live
 
 
 def _same(case, keys, live, what):
@@ -271,6 +276,34 @@ def with_layout(draw, strat, nops):
         if m is not None:
             case['out'] = m
             case['entry'] = 'class'
+    # extreme magnitude: the whole matrix polynomial times 2^k.  logdet: n*|k| beyond the exponent range of binary64
+    # (det A_0 under-/overflows although A_0 is well conditioned and log|det| is an ordinary number); inv, solve: |k| = 200, 300
+    if case['op'] in ('logdet', 'inv', 'solve') and not case.get('cplx') and draw(st.integers(0, 4)) == 0:
+        A = case['A']
+        n = A.shape[-1]
+        sgn = draw(st.sampled_from([1, -1]))
+        if case['op'] == 'logdet':
+            k = sgn * (-(-1100 // n) + draw(st.sampled_from([0, 20]))) if n >= 2 else 0
+        else:
+            k = sgn * draw(st.sampled_from([200, 300]))
+        if k:
+            case['A'] = A * 2.0 ** k
+            case['ext_k'] = k
+    # the SAME UTPM object passed for both operands (dot(x, x), outer(x, x)); matrices are cropped to square
+    if case['op'] in ('dot', 'outer') and case.get('kind') == 'UU' and case['x'].ndim == case['y'].ndim \
+            and case['x'].shape[:2] == case['y'].shape[:2] and draw(st.integers(0, 4)) == 0:
+        x = case['x']
+        if case['op'] == 'dot' and x.ndim >= 4:
+            m = min(x.shape[-1], x.shape[-2])
+            x = np.ascontiguousarray(x[..., :m, :m])
+        if np.iscomplexobj(case['y']) and not np.iscomplexobj(x):
+            x = x.astype(complex)
+        case['x'] = x
+        case['y'] = x.copy()
+        case['same'] = True
+        case['lay'] = case['lay'][0] * 2
+        if case.get('cplx'):
+            case['cplx'] = 'cc' if np.iscomplexobj(x) else 'rr'
     # the SAME constant ndarray object refilled in place and used in a second call (a preallocated step / Jacobian
     # matrix in a loop): the second result must be the one of a fresh array with the new contents
     kind = case.get('kind')
@@ -411,7 +444,7 @@ def prop_inv(case, stats):
     z2, s2 = R.conv_with_scale(Y.data, A, np.dot)
     R.check_close(z2, Id, R.normwise(s2 + Id), TOL, stats, 'inv(A)*A = I')
     ref0 = np.array([np.linalg.inv(A[0, p]) for p in range(P)])
-    R.check_close(Y.data[0], ref0, np.maximum(1.0, np.abs(ref0).max()), 1e-12, stats, 'inv zeroth coefficient vs numpy.linalg.inv')
+    R.check_close(Y.data[0], ref0, float(np.abs(ref0).max()) or 1.0, 1e-12, stats, 'inv zeroth coefficient vs numpy.linalg.inv')
 
 
 def _check_solve(case, X, stats, what):
@@ -425,7 +458,7 @@ def _check_solve(case, X, stats, what):
     z, s = R.conv_with_scale(As, X.data, np.dot)
     R.check_close(z, Bs, R.normwise(s + np.abs(Bs)), TOL, stats, what + ': A*X = B')
     ref0 = np.array([np.linalg.solve(As[0, p], Bs[0, p]) for p in range(P)])
-    R.check_close(X.data[0], ref0, np.maximum(1.0, np.abs(ref0).max()), 1e-12, stats, what + ': zeroth coefficient vs numpy.linalg.solve')
+    R.check_close(X.data[0], ref0, float(np.abs(ref0).max()) or 1.0, 1e-12, stats, what + ': zeroth coefficient vs numpy.linalg.solve')
 
 
 def prop_solve(case, stats):
@@ -507,10 +540,23 @@ def prop_logdet(case, stats):
     y = guard(_fn(case), *live)
     _same(case, ('A',), live, 'logdet')
     _is_utpm(y, 'logdet')
+    k = case.get('ext_k', 0)
+    B = A * 2.0 ** -k if k else A               # exact
     ref = np.zeros((D, P))
     for p in range(P):
-        ref[:, p] = mp_taylor(lambda t: mpmath.log(abs(mpmath.det(R.mp_matrix(A[:, p], t)))), [0.0, 1.0], D=D)
-    R.check_close(y.data, ref, R.running_scale(ref), TOL, stats, 'logdet')
+        ref[:, p] = mp_taylor(lambda t: mpmath.log(abs(mpmath.det(R.mp_matrix(B[:, p], t)))), [0.0, 1.0], D=D)
+    if not k:
+        R.check_close(y.data, ref, R.running_scale(ref), TOL, stats, 'logdet')
+        return
+    # extreme magnitude A = 2^k B: logdet A(t) = n k log 2 + logdet B(t); det A_0 itself is outside the binary64 range.
+    # zeroth coefficient against numpy.linalg.slogdet (relative), the series against the reference of B (scale of B)
+    shift = n * k * np.log(2.0)
+    sl = np.array([np.linalg.slogdet(A[0, p])[1] for p in range(P)])
+    R.check_close(y.data[0], sl, np.abs(sl), 1e-12, stats, 'logdet[2^%d * B]: zeroth coefficient vs numpy.linalg.slogdet' % k)
+    got = y.data.copy()
+    got[0] -= shift
+    R.check_close(got, ref, R.running_scale(ref), TOL, stats,
+                  'logdet[2^%d * B] - n k log 2 versus logdet B' % k)
 
 
 def prop_trace(case, stats):
@@ -607,6 +653,10 @@ def _classes(case):
     if case.get('out'):
         c.append('out=' + case['out'])
         c.append('out=%s,op=%s' % (case['out'], case['op']))
+    if case.get('ext_k'):
+        c.append('extreme-magnitude,op=%s,2^%s' % (case['op'], '+' if case['ext_k'] > 0 else '-'))
+    if case.get('same'):
+        c.append('same-object-both-operands,op=' + case['op'])
     if case.get('refill') is not None:
         c.append('constant-refilled-in-place,op=%s,kinds=%s' % (case['op'], case['kind']))
     if case.get('base_norm'):
